@@ -262,10 +262,10 @@ class BPMEvent(Event):
                 ``line``.
         """
 
-        bpm_whole_part_str, bpm_decimal_part_str = data.raw_bpm[:-3], data.raw_bpm[-3:]
-        bpm_whole_part = int(bpm_whole_part_str) if bpm_whole_part_str != "" else 0
-        bpm_decimal_part = int(bpm_decimal_part_str) / 1000
-        bpm = bpm_whole_part + bpm_decimal_part
+        # The raw value is the BPM in thousandths. A single division yields the float nearest to
+        # the written value; summing a whole part and a separately rounded decimal part can be one
+        # ulp off (e.g. "1118"), which the three-decimal-places validation then rejects.
+        bpm = int(data.raw_bpm) / 1000
 
         if prev_event is None:
             timestamp, proximal_bpm_event_index = Timestamp(timedelta(0)), 0
